@@ -54,6 +54,25 @@ C["C20"] = dict(engine="domainmc", cat="exploration", technique=DOM + " + differ
   text="All training sequences over a small lattice x k x maxIter x metric for k-means; all 65536 half bit patterns and all adjacent-half midpoints (thorough: every float32 in the half normal range) for float16; level-boundary sweeps for int8; bit-exactness for float32.",
   note="Exhaustive over the stated lattices only; runs on the instrumented copy of /repo.")
 
+STORE_NOTE = ("Runs on the L1+L2 instrumented copy of /repo (imports of sync, sync/atomic, math/rand/v2, os, time redirected; go/chan/select in the storage files rewritten to internal/vrt) over an in-memory file system with the store's worker and per-segment goroutines as scheduler threads. "
+  "Conformance: the repository's suite passes on the rewritten package in pass-through mode. The store wraps every memtable and segment around the SAME template index objects (F12): several genuine consequences are known findings identified by witness predicates; because of that sharing many protocol-level changes are behaviourally invisible on this tree (stated limitation).")
+SCHED = "stateless exploration of thread interleavings on the real code under a cooperative scheduler (DFS over choice prefixes, iterative preemption bounding, bounded environment deviations and blocking-switch deviations, state-key pruning, replay self-check) (schedmc)"
+C["C08"] = dict(engine="histmc", cat="model_checking", technique=HIST + " + " + SCHED,
+  text="Every sequential history over Add/AddWithID/Remove/Flush/Rotate/Drain/Compact/Tick/Evict/Search up to the bound for 3 memtable limits x 2 flush thresholds x 2 compaction thresholds x 2 template sets, and every bounded interleaving of user threads with the background workers in four scenarios; after every transition / on every interleaving every probe query is compared with the set of acknowledged live documents.",
+  note=STORE_NOTE)
+C["C09"] = dict(engine="histmc", cat="model_checking", technique=HIST,
+  text="Every multi-session history (add | flush | search)* close-reopen with fresh templates, up to 3/4 sessions, for 3 memtable limits x 3 vector template kinds x 2 template sets; durable documents must be found in every later state; segment file names are never created twice (from the file-system log).",
+  note=STORE_NOTE)
+C["C10"] = dict(engine="crashmc", cat="fault_enumeration", technique="exhaustive enumeration of crash images (every prefix of the logged file-system operations x every byte prefix of the in-flight write), each reopened and checked on the real code (crashmc)",
+  text="For every history in the bound, every possible on-disk image at a process death inside a flush or a compaction is materialised and reopened with fresh templates: open and searches succeed, durable documents are found, the torn segment contributes nothing, identifiers are not reused.",
+  note=STORE_NOTE + " Fault model = process death; power-loss reordering is outside the statement (comet never syncs).")
+C["C11"] = dict(engine="schedmc", cat="model_checking", technique=SCHED + "; data races: separate free-running race-detector pass over the same scenario bodies",
+  text="Six 3-thread scenarios on one shared instance for each of eight index kinds plus five store scenarios: every interleaving with at most 2 (quick) / 3 (thorough) preemptions (one fewer for the store scenarios) is executed on the real code and judged for panics, deadlocks, spurious failures, visibility and id uniqueness; the race detector runs over free-running executions of the same bodies.",
+  note=STORE_NOTE + " Scheduling points at synchronisation operations; atomics sequentially consistent; the data-race clause is a sampling cross-check, not enumeration.")
+C["C17"] = dict(engine="histmc", cat="model_checking", technique=HIST + " + " + SCHED + "; file-system faults injected by (kind, n-th call)",
+  text="Every sequence of Open / Open-with-one-injected-fault (5 fault sites) / foreign LOCK / Close / use on 3 handle slots up to the bound, with every public method on every closed handle after each transition; plus every bounded interleaving of Open||Open||Open, Close||Open, Close||Close, Close||use, Add||Close.",
+  note=STORE_NOTE)
+
 NA = {
  "C15": "statistical claim over a continuous distribution (i.i.d. Gaussian data, every seed): no bounded enumerable space represents it; its structural causes are decided by C12/C13/C14/C20",
 }
